@@ -814,6 +814,8 @@ class _ExprMixin:
             if n.attr in SHAPE_ATTRS:
                 if n.attr == "shape" and getattr(base, "shape", None) is not None:
                     return base.shape
+                if n.attr == "ndim" and isinstance(getattr(base, "shape", None), Tup):
+                    return Q(D0, Lin.const(len(base.shape.items)))
                 return Q(D0) if n.attr != "shape" else Seq(Q(D0))
             if n.attr == "ctypes":
                 return Unk("ctypes")
@@ -835,8 +837,8 @@ class _ExprMixin:
         return v if isinstance(v, Unk) else self.unknown(n, "unary op on %s" % type(v).__name__)
 
     def _e_BinOp(self, n, env):
-        a = self.eval_expr(n.left, env)
-        b = self.eval_expr(n.right, env)
+        a = self._as_number(self.eval_expr(n.left, env))
+        b = self._as_number(self.eval_expr(n.right, env))
         op = n.op
         if isinstance(a, Alt) or isinstance(b, Alt):
             return self.unknown(n, "operand differs between branches")
@@ -879,6 +881,16 @@ class _ExprMixin:
                     and a.deg in (D0, ANY) and b.deg in (D0, ANY):
                 return Q(D0)
         return self.unknown(n, "operator %s" % type(op).__name__)
+
+    @staticmethod
+    def _as_number(v):
+        """a bool used in arithmetic is the number 0 / 1 (unknown truth: a dimensionless number)"""
+        t = v.truth if isinstance(v, B) else v.value if isinstance(v, K) and isinstance(v.value, bool) else "no"
+        if t == "no":
+            return v
+        if t is None:
+            return Q(D0)
+        return Q(D0, L1) if t else Q(ANY, L0)
 
     # -- truth ---------------------------------------------------------------
     def truth(self, v):
@@ -1259,6 +1271,9 @@ class _SubMixin:
             k = sel[1]
             if k < 0 and base.n is not None and axis == 0:
                 k += base.n
+            elif k < 0 and isinstance(base.shape, Tup) and axis < len(base.shape.items) \
+                    and self.int_of(base.shape.items[axis]) is not None:
+                k += self.int_of(base.shape.items[axis])
             return base.row(k)
         if sel[0] == "range" and base.n is not None and axis == 0 and len(parts) == 1:
             idx = list(range(base.n))[sel[1]:sel[2]]
